@@ -154,6 +154,7 @@ fn replay(sink: &mut common::Sink, toks: &[&str]) {
         "tstream" | "tstream3" | "tsfault" | "tspfx" => stypes::replay(sink, toks),
         "lc3" | "lcs" => linecol::replay(sink, toks),
         "rd" | "rs" => readers::replay(sink, toks),
+        "rsa" => readers::replay(sink, toks),
         _ => eprintln!("cannot replay op {}", toks[0]),
     }
 }
